@@ -716,6 +716,6 @@ func VerifC09Two()   { verifC09(c09Cfg{n: 2, rich: true, tx2: 1, pool: 2, edits:
 func VerifC09Three() { verifC09(c09Cfg{n: 3, rich: false, pool: 2, edits: 0}) }
 
 // thorough tier
-func VerifC09TwoLong()   { verifC09(c09Cfg{n: 2, rich: true, tx2: 1, pool: 3, edits: 1, via: 2}) }
+func VerifC09TwoLong()   { verifC09(c09Cfg{n: 2, rich: true, tx2: 1, pool: 3, edits: 1, via: 1}) }
 func VerifC09ThreeLong() { verifC09(c09Cfg{n: 3, rich: true, tx2: 0, pool: 2, edits: 1}) }
 func VerifC09FourLong()  { verifC09(c09Cfg{n: 4, rich: false, pool: 2, edits: 2}) }
